@@ -5,7 +5,8 @@ import vlib
 from comp.qs import gen
 
 RULE = ("lock-step scripts over 1-4 agents / 1-6 nodes (online/offline/quiescent_state/await_barrier/run/quiescent_barrier, "
-        "each agent on its own thread, one API call at a time), 8% with one call violating a precondition, 70% ending in drain "
+        "each agent on its own thread, one API call at a time; in half of the scripts callbacks keep their node object for a later "
+        "registration of the same object or re-register their own node once from inside run()), 8% with one call violating a precondition, 70% ending in drain "
         "rounds + expect_drained; concurrent stress scripts (2-3 agents; readers/writers) under ASan and TSan; thorough adds all "
         "valid call sequences of 1 agent x <=9, 2 agents x <=7, 3 agents x <=6 calls, an exhaustive exploration of all interleavings of the fine-grained model on 60 small script sets and a randomised vector-clock check of the C11_hb statement. non-trivial = distinct lock-step script in "
         "which a callback ran and some agent held a deferred period")
@@ -14,12 +15,13 @@ TRUSTED = ["extraction: ExtrOcamlBasic only; OCaml 4.13.1; comp/qs/driver.ml",
            "lock_guard bodies, order of pop_front/callback in run())",
            "correspondence harness comp/qs/harness.cpp (g++ -fsanitize=address,undefined and -fsanitize=thread, -fno-access-control)",
            "oracle: harness-side bookkeeping of who was online at registration / has entered quiescent_state()/offline() since; counting "
-           "mutex; callbacks free their node (ASan); TSan happens-before on reclaimed objects; watchdog",
+           "mutex; callbacks free their node (ASan) or keep / re-arm it (a node without outstanding registration must be detached: list hook "
+           "next/previous null, in_list false, target 0); TSan happens-before on reclaimed objects; watchdog",
            "SC interleaving semantics of the fine-grained model (stale values of relaxed loads are not modelled; DESIGN section 7); "
            "vector-clock happens-before as in DESIGN 3.6"]
 ASSUMPTIONS = ["the mutex type M is a correct mutex (lock blocks while held; unlock releases)",
                "a qs_node is used by one agent only and is not re-registered before its callback started (documented precondition)",
-               "callbacks do not call back into the domain",
+               "callbacks do not call back into the domain, except to register their own node again (await_barrier(node))",
                "qs_counter does not reach 2^64 and fewer than 2^32 agents are online"]
 
 FACTS = ["gen_guard_locks_then_unlocks", "gen_sites_ok", "gen_skeleton_ok", "gen_numagents_guarded", "gen_pop_first",
@@ -102,7 +104,10 @@ def run(c):
             c.count("qs_agents_%s" % ls[0].split()[1])
             c.count("qs_ops", len(ls) - 1)
             for l in ls[1:]:
-                c.count("qs_op_" + l.split()[0])
+                w = l.split()
+                c.count("qs_op_" + w[0])
+                if w[0] == "ab" and len(w) > 3:
+                    c.count("qs_op_ab_" + w[3])
             if cid.startswith("x"):
                 c.count("qs_cases_exhaustive")
         impl = vlib.run_cases(har, batch, timeout=900, env=env)
@@ -116,6 +121,14 @@ def run(c):
                     c.count("qs_cases_with_callback")
                 if any(re.search(r"\| \d+ 1 \[", l) for l in ri["lines"]):
                     c.count("qs_cases_with_deferred_period")
+                if any(len(l.split()) > 3 for l in ls[1:]):
+                    cbs = {}
+                    for l in ri["lines"]:
+                        m = re.search(r"\| c((?: \d+@\d+)*) \|", l)
+                        for x in (m.group(1).split() if m else []):
+                            cbs[x.split("@")[0]] = cbs.get(x.split("@")[0], 0) + 1
+                    if any(v > 1 for v in cbs.values()):
+                        c.count("qs_cases_same_node_object_called_back_again")
         c.compare(batch, impl, model, interesting)
         known = vlib.known_findings(c.pid)
         new_fail = [f for f in c.oracle_fail if not any(k["rx"].search(f[0] + " " + f[1]) for k in known)]
